@@ -96,6 +96,9 @@ def run(rep, tier):
     rep.ob(rc, "into_bytes", ok, "<&I as IntoBytes>::into_bytes byte lanes", expected="layout table", found=found)
     rd = rep.rule("R17.d", "instruction builder: for every constructor and every combination of its enum arguments the opcode byte is the ISA opcode of that instruction", floor=95)
     _builder_opcodes(cx, rep, rd)
+    re_ = rep.rule("R17.e", "ebpf::to_insn_vec returns get_insn(prog, i) for every i in 0..len/8, in order, and nothing else", floor=1)
+    oke, founde = _decode_all(cx)
+    rep.ob(re_, "to_insn_vec", oke, "loop of ebpf::to_insn_vec", expected="counter from 0 while i*8 < len (or i < len/8); each iteration pushes get_insn(prog, i) and nothing is skipped", found=founde)
     rep.trust("rustc front end / typed THIR", "byteorder::LittleEndian::read_i16/read_i32 (modelled as little-endian byte lanes)")
     rep.assume("register numbers 0-15 (4-bit fields)")
 
@@ -250,3 +253,103 @@ def _builder_opcodes(cx, rep, rd):
             rep.ob(rd, key, got == ref, "opcode byte of BpfCode::%s" % key, expected="%#04x" % ref, found=("%#04x" % got) if got is not None else "not a constant",
                    sample=(key in ("add(Imm,X64)", "jump_conditional(Equals,Reg)")))
     rep.info("builder_constructor_combinations", n)
+
+
+def _decode_all(cx):
+    F = cx.F
+    path = "ebpf::to_insn_vec"
+    fn = F.fns.get(path)
+    if not fn or not fn.get("thir"):
+        return False, "missing"
+    body = fn["thir"]["body"]
+    loops = [n for n in walk(body) if n.get("k") == "loop"]
+    if len(loops) != 1:
+        return False, "%d loops" % len(loops)
+    # the decode call and its index variable
+    dec = [n for n in walk(loops[0]) if n.get("k") == "call" and (callee_path(n) or "").endswith("get_insn")]
+    if len(dec) != 1:
+        return False, "%d decode calls in the loop" % len(dec)
+    iv = strip(dec[0]["args"][1])
+    if iv.get("k") not in ("var", "upvar"):
+        return False, "decode index is not the loop counter"
+    ev = symex.Evaluator(F)
+    owner = ev.owner_of(path)
+    pname = fn["thir"]["params"][0]["pat"]["name"]
+    I = ("v", "I", 64)
+    PROG = ("obj", pname, fn["thir"]["params"][0]["ty"])
+    n_insns = T.op("udiv", 64, ("call", "len", (PROG,), 64), T.K(64, 8))
+    st0 = symex.St()
+    for q in fn["thir"]["params"]:
+        if q["pat"] and q["pat"].get("k") == "bind":
+            st0 = st0.set((owner, q["pat"]["id"]), PROG)
+    # bindings made before the loop (e.g. `let n = prog.len() / INSN_SIZE;`)
+    top = strip(body)
+    if top.get("k") == "block":
+        for stmt in top["stmts"]:
+            if any(x is loops[0] for x in walk(stmt.get("e") or stmt.get("init") or {})):
+                break
+            if stmt["k"] != "let":
+                continue
+            fake = {"k": "block", "stmts": [stmt], "tail": None, "ty": "()"}
+            nxt_states = [s2 for _v, s2 in ev.ev(fake, st0, path) if s2.exit is None and s2.feasible]
+            if len(nxt_states) == 1:
+                st0 = nxt_states[0]
+    st0 = st0.set((owner, iv["id"]), I)
+    lb = strip(loops[0]["body"])
+    probs = []
+    if lb.get("k") == "if":
+        conds = ev.ev_cond(lb["c"], st0, path)
+        ok_c = len(conds) == 1 and conds[0][0] in (T.cmp("ult", 64, T.op("mul", 64, I, T.K(64, 8)), ("call", "len", (PROG,), 64)),
+                                                  T.cmp("ult", 64, I, n_insns))
+        if not ok_c:
+            probs.append("loop guard %s" % [T.show(c) for c, _ in conds][:1])
+        then = lb.get("t") or lb.get("then")
+        step_block = then
+    else:
+        # `for i in a..b`: the range handed to into_iter
+        rng = [n for n in walk(body) if n.get("k") == "call" and (callee_path(n) or "").endswith("into_iter")]
+        if len(rng) != 1:
+            return False, "loop is neither `while` nor a single `for` over a range"
+        vals = ev.ev(rng[0]["args"][0], st0, path)
+        ok_r = False
+        if len(vals) == 1 and isinstance(vals[0][0], tuple) and vals[0][0][0] == "struct" and vals[0][0][1].endswith("ops::Range"):
+            a, b = symex.sfield(vals[0][0], "start"), symex.sfield(vals[0][0], "end")
+            ok_r = a == T.K(64, 0) and b == n_insns
+            if not ok_r:
+                probs.append("range %s..%s" % (_sh(a), _sh(b)))
+        else:
+            probs.append("loop range is not a plain a..b")
+        arms = [a for n in walk(lb) if n.get("k") == "match" for a in n["arms"] if any(x is dec[0] for x in walk(a["body"]))]
+        step_block = arms[0]["body"] if arms else None
+    if step_block is None:
+        return False, "loop body not found"
+    outs = ev.ev(step_block, st0, path)
+    live = [(v, s2) for v, s2 in outs if s2.feasible]
+    if len(live) != 1:
+        probs.append("%d paths through one iteration (an instruction may be skipped or handled specially)" % len(live))
+    for _v, s2 in live:
+        pushes = [e for e in s2.effects if e[0] == "call" and isinstance(e[1], str) and e[1].endswith("Vec<T, A>::push")]
+        want = ev.run_fn("ebpf::get_insn", [PROG, I]) if False else None
+        if len(pushes) != 1:
+            probs.append("%d pushes per iteration" % len(pushes))
+        else:
+            x = pushes[0][2][1]
+            fl = {k: y for k, y in x[3]} if isinstance(x, tuple) and x and x[0] == "struct" else {}
+            okp = all(isinstance(fl.get(f), tuple) and fl[f][0] == "v" and isinstance(fl[f][1], tuple) and fl[f][1][0] == "insn" and fl[f][1][1] == I and fl[f][1][2] == f
+                      for f in ("opc", "dst", "src", "off", "imm"))
+            if not okp:
+                probs.append("the pushed value is not get_insn(prog, i) unchanged")
+        if s2.exit is not None and s2.exit[0] not in ("continue",):
+            probs.append("an iteration leaves the loop (%s)" % (s2.exit[0],))
+        if lb.get("k") == "if":
+            nxt = s2.env.get((owner, iv["id"]))
+            if nxt != T.op("add", 64, I, T.K(64, 1)):
+                probs.append("counter step %s" % _sh(nxt))
+    return not probs, sorted(set(probs)) or "guard, step and pushed value as expected"
+
+
+def _sh(t):
+    try:
+        return T.show(t)
+    except Exception:
+        return repr(t)[:80]
